@@ -1,6 +1,6 @@
 (* Property C19 — routes installed by the routing daemon mirror its tables; prefix logs replicate.
    Only theorem statements closed by `exact`, each followed by Print Assumptions. *)
-From DvFib Require Import U64 GenConsts ConstFacts PfxLog PfxLogProofs PfxLogLive DvFib DvFibProofs DvDaemon DvDaemonProofs.
+From DvFib Require Import U64 GenConsts ConstFacts PfxLog PfxLogProofs PfxLogLive DvFib DvFibProofs DvDaemon DvDaemonProofs Executor ExecutorProofs.
 Open Scope N_scope.
 
 (* log_replication. For every initial sequence number s0, every history of publisher operations (announce, withdraw;
@@ -103,6 +103,34 @@ Theorem daemon_keeps_mirror :
 Proof. exact daemon_keeps_mirror_l. Qed.
 Print Assumptions daemon_keeps_mirror.
 
+(* executor_preserves_order (dv/nfdc/nfdc.go NfdMgmtThread: FIFO channel, in-place retry with a budget, drop after
+   exhaustion).  For every interleaving of Exec calls (XEnq) with steps of the thread (XTick) and every fault pattern:
+   the commands the loop is done with, the one it is holding and the queue are the emitted sequence, in order; the
+   successfully executed commands (what the forwarder saw) are the done ones minus the dropped ones, in order; a command
+   is dropped only if its retry budget is finite. *)
+Theorem executor_preserves_order : forall (A : Type) (evs : list (xev A)), let s := xrun A evs in
+  map fst (x_proc A s) ++ cur_list A s ++ x_q A s = emitted A evs /\
+  x_log A s = map (x_cmd A) (map fst (filter snd (x_proc A s))) /\
+  (forall c, In (c, false) (x_proc A s) -> (0 <= x_retries A c)%Z).
+Proof. exact executor_preserves_order_l. Qed.
+Print Assumptions executor_preserves_order.
+
+(* ... hence, once the queue is drained and nothing was dropped, the forwarder saw exactly the emitted stream, so its
+   table is the fold of the emitted commands (the s_rt of installed_mirrors_tables) ... *)
+Theorem executor_no_loss : forall (A : Type) (evs : list (xev A)), let s := xrun A evs in
+  x_q A s = [] -> x_cur A s = None -> forallb snd (x_proc A s) = true ->
+  x_log A s = map (x_cmd A) (emitted A evs).
+Proof. exact executor_no_loss_l. Qed.
+Print Assumptions executor_no_loss.
+
+(* ... and transient faults within the budget drop nothing: if no r consecutive ExecMgmtCmd calls failed and every
+   emitted command has a budget of at least r (or an unlimited one), every command the loop is done with succeeded. *)
+Theorem faults_within_budget_drop_nothing : forall (A : Type) (r : Z) (evs : list (xev A)), let s := xrun A evs in
+  (forall c, In c (emitted A evs) -> (x_retries A c < 0 \/ r <= x_retries A c)%Z) ->
+  (max_run (x_att A s) < r)%Z -> forallb snd (x_proc A s) = true.
+Proof. exact faults_within_budget_l. Qed.
+Print Assumptions faults_within_budget_drop_nothing.
+
 (* What `desired` depends on: tables with the same RIB view that agree on the faces of the next hops occurring in it and
    on the prefix sets of the reachable remote routers occurring in it prescribe the same routes (so such a change needs
    no fibUpdate: this is the frame the daemon's "dirty" tests rely on; the harness checks the daemon's own decisions
@@ -172,3 +200,12 @@ Proof.
     apply negb_true_iff in H1. apply negb_true_iff in H2. apply N.eqb_neq in H1. apply N.eqb_neq in H2. split; assumption.
   - vm_compute. repeat split.
 Qed.
+
+(* non-vacuity of the executor theorems: three commands with budget 3, the first fails twice, the second is enqueued
+   while the first is being retried; nothing is dropped and the order is kept *)
+Example c19_executor_example :
+  let c := fun n => {| x_cmd := n; x_retries := 3%Z |} in
+  let evs := [XEnq N (c 1); XTick N false; XTick N true; XEnq N (c 2); XTick N true; XEnq N (c 3); XTick N false;
+              XTick N false; XTick N false; XTick N false; XTick N true; XTick N false] in
+  x_log N (xrun N evs) = [1; 2; 3] /\ max_run (x_att N (xrun N evs)) = 2%Z /\ x_q N (xrun N evs) = [] /\ x_cur N (xrun N evs) = None.
+Proof. vm_compute. repeat split. Qed.
